@@ -21,9 +21,21 @@ from gtirb_rewriting._modify import functions as FN
 from pyvc.run import Job
 
 
-class FakeCache:
-    def __init__(self, fbb):
-        self.functions_by_block = dict(fbb)
+class _Cache:
+    """the REAL ModifyCache of the module (built after the tables were arranged), with the block -> function map under test put in"""
+
+    def __init__(self, m, fbb):
+        from gtirb_rewriting._modify import make_modify_cache
+        self.cm = make_modify_cache(m, [])
+        self.cache = self.cm.__enter__()
+        self.cache.functions_by_block = dict(fbb)
+
+    def close(self):
+        self.cm.__exit__(None, None, None)
+
+
+def FakeCache(fbb, m=None):
+    return _Cache(m, fbb)
 
 
 def subsets(xs):
@@ -50,12 +62,14 @@ def harness(ctx):
                         _auxdata.function_entries.set(m, {F: {B[i] for i in ents}, G: {B[3]}})
                     if tables[2]:
                         _auxdata.function_names.set(m, {F: sf, G: sg})
-                    cache = FakeCache({B[i]: F for i in blks} | {B[3]: G})
+                    holder = FakeCache({B[i]: F for i in blks} | {B[3]: G}, m)
+                    cache = holder.cache
                     blk = B[0]
                     if not in_cache:
                         cache.functions_by_block.pop(blk, None)
                     known = blk in cache.functions_by_block
                     FN.remove_function_block_aux(cache, blk)
+                    holder.close()
                     n += 1
                     fb, fe, fnm = _auxdata.function_blocks.get(m), _auxdata.function_entries.get(m), _auxdata.function_names.get(m)
                     desc = "tables=%s entries=%s blocks=%s cached=%s" % (tables, ents, blks, in_cache)
@@ -89,8 +103,10 @@ def harness(ctx):
             _auxdata.function_blocks.set(m, {F: {B[0]}, G: {B[2]}})
         else:
             m.aux_data.pop("functionBlocks", None)
-        cache = FakeCache({B[0]: F, B[2]: G})
+        holder = FakeCache({B[0]: F, B[2]: G}, m)
+        cache = holder.cache
         FN.add_function_block_aux(cache, B[1], F)
+        holder.close()
         fb = _auxdata.function_blocks.get(m)
         ok = cache.functions_by_block == {B[0]: F, B[1]: F, B[2]: G} and (not present or fb == {F: {B[0], B[1]}, G: {B[2]}}) and (present or fb is None)
         ctx.prove("functions/add/block-joins-the-function-in-table-and-cache", z3.BoolVal(bool(ok)), note="functionBlocks present=%s" % present)
